@@ -139,6 +139,12 @@ def run_bounded(prop, tier, seed):
         from bounded import history
 
         history.run(ctx, getattr(history, "Q_" + prop))
+    from bounded import reuse
+
+    if prop in reuse.PROPS:
+        # instance-reuse independence (bounded/reuse.py): one transform instance applied to several trees in turn answers on each
+        # what a fresh instance answers
+        reuse.run(ctx, prop)
     return ctx
 
 
@@ -546,6 +552,12 @@ def do_replay(prop, path):
         from bounded import history
 
         ok = history.replay(getattr(history, "Q_" + prop), fi["replay"])
+        print("replay:", "property holds on this input now" if ok else "FAILS on the real code")
+        return 0 if ok else 1
+    if isinstance(fi["replay"], dict) and fi["replay"].get("kind") == "reuse":
+        from bounded import reuse
+
+        ok = reuse.replay(prop, fi["replay"])
         print("replay:", "property holds on this input now" if ok else "FAILS on the real code")
         return 0 if ok else 1
     m = importlib.import_module(f"bounded.{prop}")
